@@ -2,6 +2,8 @@ package c10
 
 import (
 	"fmt"
+	"github.com/go-kid/ioc/container"
+	"runtime"
 	"sort"
 	"strings"
 	"testing"
@@ -240,4 +242,75 @@ func TestGraphs(t *testing.T) {
 		labels, nt := compare(t, "graph "+s.Shape(), runs)
 		kit.Rec.Case("graph "+s.Shape(), nt, labels...)
 	})
+}
+
+// ---- scan phase: a user definition-registry post-processor that rejects some components --------
+
+type Scanner struct {
+	reject map[string]bool
+	yields map[string]int
+}
+
+func (s *Scanner) Naming() string { return "user-scanner" }
+func (s *Scanner) PostProcessDefinitionRegistry(registry container.DefinitionRegistry, component any, name string) error {
+	for i := 0; i < s.yields[name]; i++ {
+		runtime.Gosched()
+	}
+	if s.reject[name] {
+		return fmt.Errorf("scanner rejects %s", name)
+	}
+	return nil
+}
+
+func TestScanners(t *testing.T) {
+	kit.Rec.Rule(rule)
+	rapid.Check(t, func(t *rapid.T) {
+		s := graph.Gen(t, graph.GenOpts{MinNodes: 2, MaxNodes: 6, Variants: "NNLP", Aliases: true})
+		probe := s.Instantiate()
+		var names []string
+		for _, c := range probe.Comps {
+			n, _ := model.NameOf(c)
+			names = append(names, n)
+		}
+		names = append(names, "github.com/go-kid/ioc/app/App", "user-scanner")
+		reject := map[string]bool{}
+		nrej := rapid.IntRange(0, 2).Draw(t, "nreject")
+		for i := 0; i < nrej; i++ {
+			reject[rapid.SampledFrom(names).Draw(t, "reject")] = true
+		}
+		outcomes := map[bool]int{}
+		var firstOut string
+		for i := 0; i < reps(); i++ {
+			graph.DrawOrders(t, s)
+			in := s.Instantiate()
+			sc := &Scanner{reject: reject, yields: map[string]int{}}
+			for _, n := range names {
+				sc.yields[n] = rapid.IntRange(0, 40).Draw(t, "yield")
+			}
+			in.Extra = append(in.Extra, sc)
+			in.Run()
+			if in.Out.Panic != nil {
+				t.Fatalf("C10: start-up panicked: %v\n%s", in.Out.Panic, s.Shape())
+			}
+			ok := in.Out.Err == nil
+			outcomes[ok]++
+			if firstOut == "" {
+				firstOut = in.Out.String()
+			}
+			if ok == (len(reject) > 0) {
+				t.Fatalf("C10: the definition scanner rejects %v; run %d %s (schedule of the parallel scanning phase: yields %v) - the outcome must not depend on which scanning goroutine finishes last\nscenario: %s", keysOf(reject), i, map[bool]string{true: "started although a component was rejected", false: "failed although nothing was rejected: " + in.Out.String()}[ok], sc.yields, s.Shape())
+			}
+		}
+		desc := fmt.Sprintf("scan %s reject=%v", s.Shape(), keysOf(reject))
+		kit.Rec.Case(desc, len(reject) > 0, "scanner", fmt.Sprintf("rejects-%d", len(reject)))
+	})
+}
+
+func keysOf(m map[string]bool) []string {
+	var k []string
+	for n := range m {
+		k = append(k, n)
+	}
+	sort.Strings(k)
+	return k
 }
